@@ -263,11 +263,26 @@ func VH_Revisions(a []int) {
 		v := []string{"A", "B", "C"}[sym.Pick("rev.variant", 3)]
 		n := sym.Int64("rev.num")
 		sym.Assume(sym.And(n >= 1, n < 1<<40))
-		for _, o := range st {
-			sym.Assume(o.num != n)
+		if opts&16 == 0 {
+			for _, o := range st {
+				sym.Assume(o.num != n)
+			}
+		} else {
+			// revisions adopted from elsewhere (or written by a racing controller) may share a
+			// number; the history is then ordered by number, creation time (equal here) and name
+			for _, o := range st {
+				if sym.ConcreteBool(o.num == n) {
+					sym.Cover("two stored revisions share a number")
+				}
+			}
 		}
 		x := vRevision(set, v, n)
 		x.UID = types.UID(fmt.Sprintf("uid-rev-%d", i))
+		if opts&16 != 0 {
+			// distinct creation times make the order among equal numbers independent of the names
+			// (names are hashes of codec output, which differ between the model and the real codec)
+			x.CreationTimestamp = metav1.Unix(int64(1700000000+i), 0)
+		}
 		// two stored revisions with the same data would have the same name
 		dup := false
 		for _, o := range st {
@@ -348,11 +363,20 @@ func VH_Revisions(a []int) {
 	// the oracle: which stored revision equals the template, and is it the newest?
 	var equal *stored
 	var newest *stored
+	after := func(a, b *stored) bool { // a sorts after b in the history
+		if sym.ConcreteBool(a.num != b.num) {
+			return sym.ConcreteBool(a.num > b.num)
+		}
+		if !a.rev.CreationTimestamp.Equal(&b.rev.CreationTimestamp) {
+			return b.rev.CreationTimestamp.Before(&a.rev.CreationTimestamp)
+		}
+		return a.rev.Name > b.rev.Name
+	}
 	for _, o := range st {
-		if o.variant == tmpl && (equal == nil || sym.ConcreteBool(o.num > equal.num)) {
+		if o.variant == tmpl && (equal == nil || after(o, equal)) {
 			equal = o
 		}
-		if newest == nil || sym.ConcreteBool(o.num > newest.num) {
+		if newest == nil || after(o, newest) {
 			newest = o
 		}
 	}
